@@ -143,6 +143,8 @@ pub async fn worker(
 			let n_errors = errors.clone();
 			let n_events = events.clone();
 			watcher_type = config_watcher;
+			// the new watcher has nothing registered yet: every configured path must be added again
+			pathset.clear();
 			watcher = config_watcher
 				.create(move |nev: Result<notify::Event, notify::Error>| {
 					trace!(event = ?nev, "receiving possible event from watcher");
